@@ -52,6 +52,8 @@ pub struct Ctx {
     pub scenarios: u64,
     /// flush the trace before every call (so that a crash can be attributed)
     pub flush_calls: bool,
+    /// record the chunk-iteration steps (hook H4) of every call made through `call`
+    pub chunk_events: bool,
     /// replay filter: run only scenarios with exactly this label
     pub only: Option<String>,
     cases: std::collections::HashSet<String>,
@@ -122,6 +124,7 @@ impl Ctx {
             next_cid: 0,
             scenarios: 0,
             flush_calls: false,
+            chunk_events: false,
             only: None,
             cases: Default::default(),
             nontrivial: 0,
@@ -335,7 +338,14 @@ impl Ctx {
         observe: impl FnOnce(&CallResult<T>) -> Vec<Value>,
     ) -> CallResult<T> {
         let cid = self.call_begin(pl.iid, entry, input, out_init.len(), scratch_init.len(), extra);
+        if self.chunk_events {
+            verif_hooks::start_recording(true);
+        }
         let r = run_call(&*pl.fft, entry, input, out_init, scratch_init, guard);
+        if self.chunk_events {
+            let evs = verif_hooks::take_events();
+            self.emit_hook_events(evs);
+        }
         let obs = observe(&r);
         let outh = hash2(&r.result);
         self.call_end(cid, &r.panic, obs, "none", "", outh);
